@@ -3,11 +3,12 @@
 usage: eval_seed.py <seed dir containing patch.diff> [C01 C02 ...]   (default: all 18)"""
 import sys, os, subprocess, json, time, re
 V = os.path.dirname(os.path.dirname(os.path.abspath(__file__)))
+REPO = os.environ.get('VERIF_REPO', '/repo')
 sd = os.path.abspath(sys.argv[1])
 props = sys.argv[2:] or ['C%02d' % i for i in range(1, 19)]
 patch = os.path.join(sd, 'patch.diff')
-assert subprocess.run(['git', '-C', '/repo', 'status', '--porcelain', '--untracked-files=no'], capture_output=True, text=True).stdout.strip() == '', '/repo is not clean'
-subprocess.run(['git', '-C', '/repo', 'apply', patch], check=True)
+assert subprocess.run(['git', '-C', REPO, 'status', '--porcelain', '--untracked-files=no'], capture_output=True, text=True).stdout.strip() == '', REPO + ' is not clean'
+subprocess.run(['git', '-C', REPO, 'apply', patch], check=True)
 res = {}
 try:
     for p in props:
@@ -25,8 +26,8 @@ try:
         res[p] = {'rc': r.returncode, 'violation_lines': [re.sub(r'replay=\S+', 'replay=...', v) for v in vio], 'detail': detail, 'wall_s': round(time.time() - t, 1)}
         print(p, r.returncode, vio[:1], flush=True)
 finally:
-    subprocess.run(['git', '-C', '/repo', 'checkout', '--', '.'], check=True)
-    subprocess.run([sys.executable, os.path.join(V, 'tools', 'extract_consts.py')], capture_output=True)
+    subprocess.run(['git', '-C', REPO, 'checkout', '--', '.'], check=True)
+    subprocess.run([sys.executable, os.path.join(V, 'tools', 'extract_consts.py'), REPO, os.path.join(V, 'lean', 'DnsVerif', 'Generated')], capture_output=True)
 out = os.path.join(sd, 'detection.json')
 old = json.load(open(out)) if os.path.exists(out) else {}
 old.update(res)
